@@ -180,7 +180,12 @@ def run_differing(ctx):
         a[1:, cols2] = np.nan
         b = v2.copy()
         b[:, cols1] = np.nan
-        for first, second, which in ((a, b, 'first'), (b, a, 'second')):
+        # ... also when both arguments lack the same *union* of entries: the stack against itself, and against a stack
+        # blanked wherever any RDM of the first misses a value (a group model prepared for partial subject RDMs)
+        u = v2.copy()
+        u[:, np.union1d(cols1, cols2)] = np.nan
+        for first, second, which in ((a, b, 'first'), (b, a, 'second'), (a, a, 'both_same_stack'),
+                                     (a, u, 'first_union_blanked'), (u, a, 'second_union_blanked')):
             sig = dict(measure=m, sigma=sk, where='within_' + which)
             ctx.case('differing_masks_within', sig)
             try:
